@@ -436,6 +436,17 @@ def interleavings(run, thorough: bool) -> None:
                     for pair in ([names] if names else name_pairs):
                         two_writers(run, scn_a, scn_b, i, j, first, label, pair)
     run.extra['interleaving_grid'] = [na, [len(record_cache(v[0])) for v in variants]]
+    # both writers in a folder that has to be created first; one of them fails: what the failing one cleans up is its own
+    scn_ok = {'is_bytes': True, 'writes': [7000, 9000]}
+    scn_fail = {'is_bytes': True, 'writes': [5000, 100], 'raise_at': 1}
+    n_ok, n_fail = len(record_cache(scn_ok)), len(record_cache(scn_fail))
+    for i in range(n_fail):
+        for j in range(n_ok):
+            if not thorough and (i * 23 + j * 11 + run.seed) % 3:
+                continue
+            for first in ('A', 'B'):
+                two_writers(run, scn_fail, scn_ok, i, j, first, 'new folder, A aborts', ('a.bin', 'b.bin'), new_folder=True)
+                run.count('interleavings_in_a_new_folder')
     # a writer object that is used a second time ("can be repeated") while another writer is at work in the same directory:
     # whatever the first cycle left in the object must not reach the other writer's temporary file
     scn_r = {'is_bytes': True, 'writes': [6000, 3000], 'reenter': True}
@@ -450,14 +461,20 @@ def interleavings(run, thorough: bool) -> None:
                 run.count('interleavings_with_a_reused_writer')
 
 
-def two_writers(run, scn_a: dict, scn_b: dict, i: int, j: int, first: str, label: str, names=('a.bin', 'b.bin')) -> None:
+def two_writers(run, scn_a: dict, scn_b: dict, i: int, j: int, first: str, label: str, names=('a.bin', 'b.bin'), new_folder: bool = False) -> None:
     d = tempfile.mkdtemp(prefix='rv-c12-')
-    case = {'two_writers': [scn_a, scn_b], 'gates': [i, j], 'first': first, 'names': list(names)}
+    case = {'two_writers': [scn_a, scn_b], 'gates': [i, j], 'first': first, 'names': list(names), 'new_folder': new_folder}
     name_a, name_b = names
+    OLD_HERE: Optional[bytes] = OLD
     try:
-        for name in names:
-            with open(os.path.join(d, name), 'wb') as f:
-                f.write(OLD)
+        if new_folder:
+            # both destinations lie in a folder that does not exist yet (the first writer to start creates it)
+            OLD_HERE = None
+            name_a, name_b = (os.path.join('made', 'deep', n) for n in names)
+        else:
+            for name in names:
+                with open(os.path.join(d, name), 'wb') as f:
+                    f.write(OLD)
         before = set(os.listdir(d))
         layer = Layer(d)
         ga = (threading.Event(), threading.Event())
@@ -516,10 +533,14 @@ def two_writers(run, scn_a: dict, scn_b: dict, i: int, j: int, first: str, label
             if want_ok and (res != 'ok' or content != expected_new(scn)):
                 run.violation(f'two writers ({label}, gates A@{i} B@{j}, {first} first): writer {tag} ended with {res} and its destination is {"new" if content == expected_new(scn) else "not new"}',
                               witness={'log': [f'{k}:{kind} {n}' for k, kind, n in layer.log][:80]}, case=case, engine='two-writers', key='writers-clobber-each-other')
-            if not want_ok and (not res.startswith('handled:BodyError') or content != OLD):
-                run.violation(f'two writers ({label}, gates A@{i} B@{j}, {first} first): aborting writer {tag} ended with {res}, destination changed={content != OLD}',
+            if not want_ok and (not res.startswith('handled:BodyError') or content != OLD_HERE):
+                run.violation(f'two writers ({label}, gates A@{i} B@{j}, {first} first): aborting writer {tag} ended with {res}, destination changed={content != OLD_HERE}',
                               witness={'log': [f'{k}:{kind} {n}' for k, kind, n in layer.log][:80]}, case=case, engine='two-writers', key='writers-clobber-each-other')
-        sub_now = set(os.listdir(d))
+        if new_folder:
+            sub_dir = os.path.join(d, 'made', 'deep')
+            sub_now = set(os.listdir(sub_dir)) if os.path.isdir(sub_dir) else set()
+        else:
+            sub_now = set(os.listdir(d))
         tmps = sorted(n for n in sub_now - before if n not in names)
         if tmps:
             run.violation(f'two writers ({label}, destinations {names}, gates A@{i} B@{j}): files {tmps} left behind', case=case, engine='two-writers', key='writers-leave-temp')
@@ -714,7 +735,7 @@ def main(run, shard=(0, 1)) -> None:
     run.exhaustive = False
     probe.report(run)
     probe.check_reached(run)
-    run.require('boundaries_enumerated', 'crash_runs', 'fault_runs', 'directory_inspections', 'interleavings_run', 'bsp_crash_runs', 'bsp_save_boundaries', 'abandon_runs', 'non_oserror_injections', 'interleavings_with_a_reused_writer', 'directory_destination_runs')
+    run.require('boundaries_enumerated', 'crash_runs', 'fault_runs', 'directory_inspections', 'interleavings_run', 'bsp_crash_runs', 'bsp_save_boundaries', 'abandon_runs', 'non_oserror_injections', 'interleavings_with_a_reused_writer', 'directory_destination_runs', 'interleavings_in_a_new_folder')
 
 
 def replay(run, data) -> None:
